@@ -441,6 +441,58 @@ class _Unroller(ast.NodeTransformer):
         return node
 
 
+class _CompToLoop(ast.NodeTransformer):
+    """N1e: `xs = [h(..) for T in IT]` with h an unknown private helper becomes `xs = []; for T in IT: xs.append(h(..))` written as
+    `tmp = h(..); xs.append(tmp)` so that N1 can inline h.  Same values in the same order; the loop variables T become function-level
+    names, so the rewrite is made only when they occur nowhere else in the function."""
+
+    def __init__(self, helper_names):
+        self.helper_names = helper_names
+        self.count = 0
+
+    def visit_FunctionDef(self, node):
+        self.generic_visit(node)
+        names_elsewhere = {}
+        for x in ast.walk(node):
+            if isinstance(x, ast.Name):
+                names_elsewhere[x.id] = names_elsewhere.get(x.id, 0) + 1
+
+        def rewrite(stmts):
+            out = []
+            for st in stmts:
+                for fld in ("body", "orelse", "finalbody"):
+                    blk = getattr(st, fld, None)
+                    if isinstance(blk, list) and blk and isinstance(blk[0], ast.stmt):
+                        setattr(st, fld, rewrite(blk))
+                v = st.value if isinstance(st, ast.Assign) and len(st.targets) == 1 and isinstance(st.targets[0], ast.Name) else None
+                if isinstance(v, ast.ListComp) and len(v.generators) == 1 and not v.generators[0].ifs and not v.generators[0].is_async \
+                        and isinstance(v.elt, ast.Call) and isinstance(v.elt.func, ast.Name) and v.elt.func.id in self.helper_names:
+                    g = v.generators[0]
+                    tn = [x.id for x in ast.walk(g.target) if isinstance(x, ast.Name)]
+                    inside = {}
+                    for x in ast.walk(v):
+                        if isinstance(x, ast.Name):
+                            inside[x.id] = inside.get(x.id, 0) + 1
+                    if all(names_elsewhere.get(t, 0) == inside.get(t, 0) for t in tn) and st.targets[0].id not in inside:
+                        xs = st.targets[0].id
+                        tmp = f"{xs}__item"
+                        loop = ast.For(target=g.target, iter=g.iter, orelse=[], type_comment=None, body=[
+                            ast.Assign(targets=[ast.Name(id=tmp, ctx=ast.Store())], value=v.elt),
+                            ast.Expr(value=ast.Call(func=ast.Attribute(value=ast.Name(id=xs, ctx=ast.Load()), attr="append", ctx=ast.Load()),
+                                                    args=[ast.Name(id=tmp, ctx=ast.Load())], keywords=[]))])
+                        init = ast.Assign(targets=[ast.Name(id=xs, ctx=ast.Store())], value=ast.List(elts=[], ctx=ast.Load()))
+                        for n_ in (init, loop):
+                            for y in ast.walk(n_):
+                                ast.copy_location(y, st)
+                        out += [init, loop]
+                        self.count += 1
+                        continue
+                out.append(st)
+            return out
+        node.body = rewrite(node.body)
+        return node
+
+
 class _NestedExprInliner(ast.NodeTransformer):
     """N1d: a nested function whose body is one `return <expression>` (e.g. a local predicate `def linked(d01, d10): return ...`) is
     expanded at its calls inside the enclosing function: parameters replaced by the (name / constant) arguments, free variables stay as
@@ -555,6 +607,10 @@ def normalise_module(tree: ast.Module, exported=(), unroll=True):
     """inline unknown private helpers of this module into their callers (in place on a deep copy); returns (new tree, info)"""
     tree = copy.deepcopy(tree)
     info = {"helpers_inlined": [], "call_sites": 0}
+    cl = _CompToLoop({st.name for st in tree.body if isinstance(st, ast.FunctionDef) and _candidate(st, set(exported)) is True})
+    if cl.helper_names:
+        cl.visit(tree)
+        ast.fix_missing_locations(tree)
     for _round in range(3):
         kinds = {st.name: _candidate(st, set(exported)) for st in tree.body if isinstance(st, ast.FunctionDef)}
         helpers = {st.name: st for st in tree.body if isinstance(st, ast.FunctionDef) and kinds.get(st.name)}
